@@ -266,6 +266,7 @@ class ReadWalker:
         self.pending = {}           # constructed, not yet read (old style: construct all, then read all)
         self.attr_of = {}           # field -> raw attribute name on self
         self.rebind = None          # index of the ProtocolVersion item kmip_version is rebound from
+        self.rebind_nested = None   # ... or class of the header item whose ProtocolVersion it is rebound from
         self.minver = None          # class-level refusal `if kmip_version < V: raise VersionNotSupported`
 
     # -- recognisers
@@ -475,6 +476,56 @@ class ReadWalker:
                 return None
         return None
 
+    def type_next_test(self, test):
+        if isinstance(test, ast.Call) and _self_attr(test.func) == 'is_type_next' and len(test.args) == 2 and not test.keywords \
+                and _is_name(test.args[1], self.buf):
+            t = self.ctx.evaluate(test.args[0])
+            if type(t) is not self.kinds.enums.Types:
+                raise self.ctx.err(test, 'is_type_next argument is not a Types member')
+            return t.value
+        return None
+
+    def try_type_peek(self, s, guard):
+        """if self.is_type_next(T1, buf): <construct; read> [elif is_type_next(T2): ...] else: <construct; read> | raise
+        -> one required item whose kind is chosen by the type byte of the next item (ByNextType)"""
+        if self.type_next_test(s.test) is None:
+            return False
+        rows, node, default_seen = [], s, False
+        field = None
+        while True:
+            ty = self.type_next_test(node.test)
+            if ty is None:
+                raise self.ctx.err(node, 'type-peek chain mixed with another test')
+            fn, tag, kind = self.construct_and_read(node.body, 'if is_type_next')
+            rows.append((ty, fn, tag, kind, True))
+            if len(node.orelse) == 1 and isinstance(node.orelse[0], ast.If):
+                node = node.orelse[0]
+                continue
+            if len(node.orelse) == 1 and isinstance(node.orelse[0], ast.Raise):
+                break
+            if node.orelse:
+                fn, tag, kind = self.construct_and_read(node.orelse, 'else of is_type_next')
+                rows.append((None, fn, tag, kind, False))
+                break
+            raise self.ctx.err(node, 'type-peek chain without a final else: the item would be optional')
+        code_of = {'PInt': 2, 'PLong': 3, 'PBig': 4, 'PBool': 6, 'PText': 7, 'PBytes': 8, 'PDate': 9, 'PInterval': 10}
+        table = []
+        for ty, fn, tag, kind, explicit in rows:
+            own = 1 if kind[0] == 'struct' else 5 if kind[0] == 'enum' else code_of[kind[1]]
+            if explicit and ty != own:
+                raise self.ctx.err(s, 'branch for type %d decodes an item of type %d' % (ty, own))
+            f = self.ctx.field_of(fn)
+            if f is None or (field is not None and f[0] != field[0]):
+                raise self.ctx.err(s, 'type-peek branches store into different attributes')
+            field = f
+            if any(r[0] == ['int', own] for r in table):
+                raise self.ctx.err(s, 'two type-peek branches for the same type')
+            table.append([['int', own], tag, list(kind)])
+        self.add(s, rows[0][1], table[0][1], tuple(table[0][2]), guard, 'Req')
+        self.items[-1]['by'] = {'src': 'next_type', 'ix': 0, 'skip_if_absent': False, 'key_field': None, 'table': table, 'dropped': {}}
+        self.flags.add('v3')
+        return True
+
     def try_dispatch_if_tag(self, s, tag, guard):
         """F2: if self.is_tag_next(T, buf): <choose class from an earlier item>; self.F.read(buf, ...) [else: raise]"""
         body = s.body
@@ -559,6 +610,8 @@ class ReadWalker:
                     if s.orelse:
                         self.walk(s.orelse, narrow(guard, *vt, negate=True))
                     continue
+                if self.try_type_peek(s, guard):
+                    continue
                 tag = self.tag_next_test(s.test)
                 if tag is not None and self.try_dispatch_if_tag(s, tag, guard):
                     continue
@@ -617,6 +670,38 @@ class ReadWalker:
             # kmip_version = contents.protocol_version_to_kmip_version(self.protocol_version): the rest of the structure is
             # decoded under the version its own ProtocolVersion item announces.  Accepted as an idiom (flag `rebind`): the
             # schema is tied only for inputs whose announced version is the version passed in (harness projection).
+            # ... or from the ProtocolVersion of the header structure just decoded (whole messages)
+            if top and isinstance(s, ast.Assign) and len(s.targets) == 1 and _is_name(s.targets[0], 'kmip_version') \
+                    and isinstance(s.value, ast.Call) and getattr(s.value.func, 'attr', getattr(s.value.func, 'id', None)) == 'protocol_version_to_kmip_version' \
+                    and len(s.value.args) == 1 and not s.value.keywords and isinstance(s.value.args[0], ast.Attribute) \
+                    and s.value.args[0].attr == 'protocol_version' and _self_attr(s.value.args[0].value):
+                ks = self.decoded_fields_in([s.value.args[0].value])
+                if len(ks) == 1 and self.items[ks[0]]['kind'][0] == 'struct' and self.items[ks[0]]['mult'] == 'Req' \
+                        and ks[0] == len(self.items) - 1 and self.rebind is None:
+                    self.rebind = ks[0]
+                    self.rebind_nested = self.items[ks[0]]['kind'][1]
+                    self.flags.add('rebind')
+                    continue
+                raise self.ctx.err(s, 'kmip_version rebound from something other than the header just decoded')
+            # for _ in range(self.<header>.<count>.value): x = Ctor(); x.read(buf, ...); self.xs.append(x)     (counted loop)
+            if top and isinstance(s, ast.For) and not s.orelse and isinstance(s.iter, ast.Call) and _is_name(s.iter.func, 'range') \
+                    and len(s.iter.args) == 1 and len(s.body) == 3:
+                a = s.iter.args[0]
+                if isinstance(a, ast.Attribute) and a.attr == 'value' and isinstance(a.value, ast.Attribute) \
+                        and isinstance(a.value.value, ast.Attribute) and _self_attr(a.value.value):
+                    ks = self.decoded_fields_in([a.value.value])
+                    if len(ks) != 1 or self.items[ks[0]]['kind'][0] != 'struct' or self.items[ks[0]]['mult'] != 'Req':
+                        raise self.ctx.err(s, 'counted loop: the count does not come from a required structure item decoded before')
+                    field_node, ctag, kind = self.construct_and_read(s.body[:2], 'counted loop')
+                    ap = s.body[2]
+                    if not (isinstance(ap, ast.Expr) and isinstance(ap.value, ast.Call) and isinstance(ap.value.func, ast.Attribute)
+                            and ap.value.func.attr == 'append' and len(ap.value.args) == 1 and isinstance(field_node, ast.Name)
+                            and _is_name(ap.value.args[0], field_node.id) and _self_attr(ap.value.func.value)):
+                        raise self.ctx.err(ap, 'counted loop: expected self.<list>.append(<obj>)')
+                    self.add(s, ap.value.func.value, ctag, kind, guard, 'Counted')
+                    self.items[-1]['counted'] = {'ix': ks[0], 'cls': self.items[ks[0]]['kind'][1], 'count_field': a.value.attr.lstrip('_')}
+                    self.flags.add('v3')
+                    continue
             if top and isinstance(s, ast.Assign) and len(s.targets) == 1 and _is_name(s.targets[0], 'kmip_version') \
                     and isinstance(s.value, ast.Call) and getattr(s.value.func, 'attr', getattr(s.value.func, 'id', None)) == 'protocol_version_to_kmip_version' \
                     and len(s.value.args) == 1 and not s.value.keywords and _self_attr(s.value.args[0]):
@@ -1058,7 +1143,10 @@ def translate_class(ctx, kinds):
     if not r.header:
         raise ctx.err(rdef, 'read() never reads the header')
     if not r.substream:
-        raise ctx.err(rdef, 'read() does not cut a sub-stream (items read from the enclosing stream)')
+        # whole messages: items are decoded from the enclosing stream, the length field is not used (Schema.v v3: c_substream := false)
+        if r.oversize or any(it['mult'] not in ('Req', 'Counted') for it in r.items):
+            raise ctx.err(rdef, 'read() does not cut a sub-stream but peeks at tags / checks is_oversized')
+        r.flags.add('v3')
     if r.pending:
         raise ctx.err(rdef, 'item constructed but never read: %s' % sorted(r.pending))
     for it in r.items:
@@ -1107,8 +1195,21 @@ def translate_class(ctx, kinds):
             raise Untranslatable(ctx.file, it['line'], '%s: nested structure %s written without kmip_version' % (ctx.name, it['field']))
         wi = {'field': it['field'], 'tag': tag, 'kind': kind, 'lo': it['lo'], 'hi': it['hi'],
               'mult': it['mult'], 'test': it['test'], 'line': it['line']}
+        cnt = [c['counted'] for c in cands if c.get('counted')]
+        if cnt:
+            if it['mult'] != 'Many':
+                raise Untranslatable(ctx.file, it['line'], '%s: the counted item %s is not written by a plain loop' % (ctx.name, it['field']))
+            wi['mult'] = 'Counted'
+            c0 = dict(cnt[0])
+            pos = [k for k, w0 in enumerate(w.items) if w0['field'] == r.items[c0['ix']]['field']]
+            if len(pos) != 1:
+                raise Untranslatable(ctx.file, it['line'], '%s: the structure holding the count is not written exactly once' % ctx.name)
+            c0['ix'] = pos[0]
+            wi['counted'] = c0
         bys = [c['by'] for c in cands if c.get('by')]
-        if bys:
+        if bys and bys[0].get('src') == 'next_type':
+            wi['by'] = dict(bys[0])
+        elif bys:
             # the writer emits whatever object the attribute holds: its dispatch table is the reader's, its key index is
             # the position, in WRITER order, of the key attribute
             by = dict(bys[0])
@@ -1123,6 +1224,7 @@ def translate_class(ctx, kinds):
         wr_items.append(wi)
     return {'name': ctx.name, 'module': ctx.mod.__name__, 'file': ctx.file,
             'rd': r.items, 'wr': wr_items, 'oversize': r.oversize, 'minver': minver, 'rebind': r.rebind,
+            'rebind_nested': r.rebind_nested, 'substream': r.substream,
             'flags': sorted(r.flags | w.flags),
             'read_line': rdef.lineno, 'write_line': wdef.lineno}
 
@@ -1135,6 +1237,16 @@ def module_names(repo):
         if p.stem != '__init__':
             names.append('kmip.core.messages.payloads.' + p.stem)
     return names
+
+
+def schema_v3():
+    """Codec/Schema.v provides c_substream, Counted and ByNextType (the generator follows the interpreter it is compiled against)"""
+    p = HERE.parent / 'coq' / 'theories' / 'Codec' / 'Schema.v'
+    try:
+        t = p.read_text()
+    except Exception:
+        return False
+    return 'c_substream' in t and 'Counted' in t and 'ByNextType' in t
 
 
 def load_handmodelled():
@@ -1203,6 +1315,7 @@ def translate(repo):
             ok[c.name] = translate_class(c, kinds)
         except Untranslatable as e:
             errors[c.name] = str(e)
+    v3 = schema_v3()
     unlisted = {n: e for n, e in errors.items() if n not in hand}
     listed_but_ok = sorted(n for n in ok if n in hand)
     stale = sorted(n for n in hand if n not in classes)
@@ -1210,6 +1323,20 @@ def translate(repo):
     excluded = {n: 'hand-modelled: ' + hand[n] for n in hand if n in classes}
     for n, e in unlisted.items():
         excluded[n] = 'UNTRANSLATABLE: ' + e
+    for n, c in ok.items():
+        if 'v3' in c['flags'] and not v3 and n not in excluded:
+            excluded[n] = 'needs Schema.v v3 (c_substream / Counted / ByNextType), not provided by the interpreter this run compiles against'
+    # a counted item names the Integer item of the header class that holds the count: resolve its tag
+    for n, c in ok.items():
+        for it in c['rd'] + c['wr']:
+            cn = it.get('counted')
+            if cn and 'tag' not in cn:
+                hc = ok.get(cn['cls'])
+                hit = [h for h in (hc['rd'] if hc else []) if h['field'] == cn['count_field']]
+                if len(hit) != 1 or hit[0]['kind'] != ('prim', 'PInt') or hit[0]['mult'] != 'Req':
+                    excluded.setdefault(n, 'counted loop: %s.%s is not a required Integer item of a translated class' % (cn['cls'], cn['count_field']))
+                else:
+                    cn['tag'] = hit[0]['tag']
     changed = True
     while changed:
         changed = False
@@ -1236,6 +1363,10 @@ def translate(repo):
                     excluded[n] = 'contains ' + it['kind'][1]
                     changed = True
                     break
+                if it.get('counted') and it['counted']['cls'] in excluded:
+                    excluded[n] = 'counts by ' + it['counted']['cls']
+                    changed = True
+                    break
     included = [ok[n] for n in names if n in ok and n not in excluded]
     used_stubs = sorted({it['kind'][1] for c in included for it in c['rd'] + c['wr'] if it['kind'][0] == 'struct' and it['kind'][1] in kinds.stubs})
     for sn in used_stubs:
@@ -1249,7 +1380,7 @@ def translate(repo):
               and all(it['kind'][0] != 'struct' or it['kind'][1] in inc_names for it in ok[n]['rd'] + ok[n]['wr'])]
     for c in included + listed:
         c['default_tag'] = default_tag(classes[c['name']])
-    return {'classes': included, 'listed': listed, 'excluded': excluded, 'errors': errors, 'unlisted_errors': unlisted,
+    return {'v3': v3, 'classes': included, 'listed': listed, 'excluded': excluded, 'errors': errors, 'unlisted_errors': unlisted,
             'listed_but_translatable': listed_but_ok, 'stale_list_entries': stale,
             'all_class_names': names, 'hand': hand}
 
@@ -1265,20 +1396,30 @@ def coq_pval(p):
         return 'VText [%s]' % ';'.join(str(b) for b in p[1].encode('utf-8'))
     if p[0] == 'enum':
         return 'VEnum %d' % p[1]
+    if p[0] == 'int':
+        return 'VInt %d' % p[1]
     raise KeyError(p[0])
 
 
-def coq_by(by):
+def coq_by(by, v3=False):
     if not by:
         return 'None'
+    if v3:
+        src = 'ByNextType' if by.get('src') == 'next_type' else 'ByField %d' % by['ix']
+        rows = ';\n                '.join('(%s, (%d, %s))' % (coq_pval(tuple(k)), tag, coq_kind(tuple(kind))) for k, tag, kind in by['table'])
+        return '(Some {| by_src := %s; by_skip_if_absent := %s; by_table := [\n                %s] |})' % (
+            src, 'true' if by['skip_if_absent'] else 'false', rows)
     rows = ';\n                '.join('(%s, (%d, %s))' % (coq_pval(tuple(k)), tag, coq_kind(tuple(kind))) for k, tag, kind in by['table'])
     return '(Some {| by_ix := %d; by_skip_if_absent := %s; by_table := [\n                %s] |})' % (
         by['ix'], 'true' if by['skip_if_absent'] else 'false', rows)
 
 
-def coq_item(it):
+def coq_item(it, v3=False):
+    mult = it['mult']
+    if mult == 'Counted':
+        mult = '(Counted %d "%s" %d)' % (it['counted']['ix'], it['counted']['cls'], it['counted']['tag'])
     return '{| i_tag := %d; i_kind := %s; i_lo := %d; i_hi := %d; i_mult := %s; i_by := %s |}' % (
-        it['tag'], coq_kind(it['kind']), it['lo'], it['hi'], it['mult'], coq_by(it.get('by')))
+        it['tag'], coq_kind(it['kind']), it['lo'], it['hi'], mult, coq_by(it.get('by'), v3))
 
 
 def used_enum_names(t):
@@ -1304,9 +1445,14 @@ def render_coq(t):
         out.append('(* %s  %s: read l.%d, write l.%d *)' % (c['name'], c['file'], c['read_line'], c['write_line']))
         out.append('Definition C_%s : cls := {|' % c['name'])
         out.append('  c_name := "%s";' % c['name'])
-        out.append('  c_rd := [' + ';\n           '.join(coq_item(i) for i in c['rd']) + '];')
-        out.append('  c_wr := [' + ';\n           '.join(coq_item(i) for i in c['wr']) + '];')
-        out.append('  c_oversize_check := %s |}.' % ('true' if c['oversize'] else 'false'))
+        v3 = t.get('v3', False)
+        out.append('  c_rd := [' + ';\n           '.join(coq_item(i, v3) for i in c['rd']) + '];')
+        out.append('  c_wr := [' + ';\n           '.join(coq_item(i, v3) for i in c['wr']) + '];')
+        if v3:
+            out.append('  c_oversize_check := %s;' % ('true' if c['oversize'] else 'false'))
+            out.append('  c_substream := %s |}.' % ('true' if c.get('substream', True) else 'false'))
+        else:
+            out.append('  c_oversize_check := %s |}.' % ('true' if c['oversize'] else 'false'))
         out.append('')
     out.append('Definition E : env := {|')
     out.append('  e_classes := [' + ';\n    '.join('C_' + c['name'] for c in t['classes']) + '];')
@@ -1334,16 +1480,14 @@ def render_json(t):
     used_enums = used_enum_names(t)
     def cj(c):
         return {'name': c['name'], 'module': c['module'], 'file': c['file'], 'default_tag': c['default_tag'],
-                'oversize': c['oversize'], 'minver': c['minver'], 'rebind': c.get('rebind'), 'flags': c['flags'], 'read_line': c['read_line'],
+                'oversize': c['oversize'], 'minver': c['minver'], 'rebind': c.get('rebind'), 'rebind_nested': c.get('rebind_nested'),
+                'substream': c.get('substream', True), 'flags': c['flags'], 'read_line': c['read_line'],
                 'write_line': c['write_line'],
                 'rd': [{k: (list(v) if k == 'kind' else v) for k, v in i.items()} for i in c['rd']],
                 'wr': [{k: (list(v) if k == 'kind' else v) for k, v in i.items()} for i in c['wr']]}
     doc = {
-        'classes': [{'name': c['name'], 'module': c['module'], 'file': c['file'], 'default_tag': c['default_tag'],
-                     'oversize': c['oversize'], 'minver': c['minver'], 'rebind': c.get('rebind'), 'flags': c['flags'], 'read_line': c['read_line'], 'write_line': c['write_line'],
-                     'rd': [{k: (list(v) if k == 'kind' else v) for k, v in i.items()} for i in c['rd']],
-                     'wr': [{k: (list(v) if k == 'kind' else v) for k, v in i.items()} for i in c['wr']]}
-                    for c in t['classes']],
+        'classes': [cj(c) for c in t['classes']],
+        'schema_v3': t.get('v3', False),
         'enums': {e: sorted({m.value for m in getattr(enums, e)}) for e in used_enums},
         'excluded': t['excluded'],
         'listed_but_translatable': t['listed_but_translatable'],
